@@ -37,6 +37,8 @@ func FmtDiffs(input string) ([]FmtDiff, error) {
 		return nil, err
 	}
 
+	all = mergeSharedLines(all)
+
 	lines := &lineSet{
 		lines: strings.Split(input, "\n"),
 	}
@@ -70,6 +72,24 @@ func FmtDiffs(input string) ([]FmtDiff, error) {
 		lastEnd = diff.ToLine
 	}
 	return out, nil
+}
+
+// mergeSharedLines joins fragments that begin on a line an earlier fragment
+// ends on (`} }`, `} // comment`, `/* c */ a = 1`), so that every source line
+// is replaced by at most one edit and edits never overlap.
+func mergeSharedLines(all []FmtDiff) []FmtDiff {
+	out := make([]FmtDiff, 0, len(all))
+	for _, diff := range all {
+		if n := len(out); n > 0 && diff.FromLine < out[n-1].ToLine {
+			out[n-1].NewText += diff.NewText
+			if diff.ToLine > out[n-1].ToLine {
+				out[n-1].ToLine = diff.ToLine
+			}
+			continue
+		}
+		out = append(out, diff)
+	}
+	return out
 }
 
 type lineSet struct {
